@@ -839,6 +839,12 @@ class AutoSerialize:
         # Helper to handle optional torch tensor restoration
         def maybe_tensor(group, key):
             arr = AutoSerialize._read_array_np(group, key)
+            if arr.dtype == np.uint8 and arr.ndim == 1:
+                # values written by the dill fallback of _serialize_value (as in _recursive_load)
+                try:
+                    return dill.loads(gzip.decompress(arr.tobytes()))
+                except Exception:
+                    pass
             return torch.from_numpy(arr) if group.attrs.get(f"{key}.torch_save") else arr
 
         if ctype in ("list", "tuple"):
